@@ -121,9 +121,9 @@ func (g GeneralName) convert() (cert.GeneralName, error) {
 	case "dns":
 		return cert.GeneralNameDNS(g.Name), nil
 	case "mail":
-		return cert.GeneralNameDNS(g.Name), nil
+		return cert.GeneralNameRFC822(g.Name), nil
 	case "url":
-		return cert.GeneralNameDNS(g.Name), nil
+		return cert.GeneralNameURI(g.Name), nil
 	case "":
 		//make sure to support empty values
 		return nil, nil
